@@ -51,6 +51,19 @@ func genPair(t *rapid.T) string {
 func gen(t *rapid.T) Case {
 	var c Case
 	c.Pairs = rapid.SliceOfN(rapid.Custom(genPair), 0, 12).Draw(t, "pairs")
+	if rapid.IntRange(0, 4).Draw(t, "bigenv") == 0 {
+		// a realistic environment: dozens of variables, a few names set
+		// more than once (sort implementations switch algorithm with size)
+		n := rapid.IntRange(13, 90).Draw(t, "bign")
+		c.Pairs = c.Pairs[:0]
+		for i := 0; i < n; i++ {
+			name := rapid.SampledFrom([]string{"HOME", "PATH", "A", "B", "USER", "LANG", "a", "TERM"}).Draw(t, "bigname")
+			if rapid.IntRange(0, 2).Draw(t, "bigfresh") > 0 {
+				name = "V" + string(rune('A'+rapid.IntRange(0, 25).Draw(t, "bigl1"))) + string(rune('a'+rapid.IntRange(0, 25).Draw(t, "bigl2")))
+			}
+			c.Pairs = append(c.Pairs, name+"="+valGen.Draw(t, "bigv"))
+		}
+	}
 	c.Lookups = rapid.SliceOfN(nameGen, 0, 6).Draw(t, "lookups")
 	n := rapid.IntRange(0, 4).Draw(t, "nfunc")
 	for i := 0; i < n; i++ {
